@@ -177,17 +177,20 @@ fn inner_puzzle(kind: u64, conds: Vec<T>) -> (T, T) {
     }
 }
 
-struct Chain { puzzle: T, inner: T, ph: [u8; 32], iph: [u8; 32], lid: [u8; 32], coins: Vec<Coin>, sols: Vec<T>, condls: Vec<Vec<T>> }
+struct Chain { puzzle: T, inner: T, ph: [u8; 32], iph: [u8; 32], lid: [u8; 32], lph: [u8; 32], coins: Vec<Coin>, sols: Vec<T>, condls: Vec<Vec<T>> }
 
 /// a launcher and `n` generations of one singleton; generation k is spent with `sols[k]`
 fn build_chain(r: &mut Rng, p: &Pools, n: usize, amounts: &[u64]) -> Chain {
     let mod_t = singleton_mod();
-    let launcher = Coin::new(b32(*r.pick(&p.ids)), b32(SINGLETON_LAUNCHER_HASH), *r.pick(&[1u64, 2, 1001]));
+    // the launcher puzzle hash curried into the singleton: the standard launcher, or sometimes another one (the
+    // singleton struct carries it explicitly, so lineage checks must use the curried value, not the constant)
+    let lph: [u8; 32] = if r.chance(1, 4) { [0x77; 32] } else { SINGLETON_LAUNCHER_HASH };
+    let launcher = Coin::new(b32(*r.pick(&p.ids)), b32(lph), *r.pick(&[1u64, 2, 1001]));
     let lid: [u8; 32] = launcher.coin_id().to_bytes();
     let kind = r.below(3);
     let (inner, _) = inner_puzzle(kind, vec![]);
     let iph = tree_hash_t(&inner);
-    let puzzle = curry_singleton(&mod_t, &SINGLETON_TOP_LAYER_V1_1_HASH, &lid, &SINGLETON_LAUNCHER_HASH, &inner);
+    let puzzle = curry_singleton(&mod_t, &SINGLETON_TOP_LAYER_V1_1_HASH, &lid, &lph, &inner);
     let ph = tree_hash_t(&puzzle);
     let mut coins = vec![Coin::new(b32(lid), b32(ph), amounts[0])];
     let mut sols = vec![]; let mut condls = vec![];
@@ -219,7 +222,7 @@ fn build_chain(r: &mut Rng, p: &Pools, n: usize, amounts: &[u64]) -> Chain {
         sols.push(list(vec![proof, int(me.amount), isol], nil()));
         coins.push(Coin::new(me.coin_id(), b32(ph), next_amount));
     }
-    Chain { puzzle, inner, ph, iph, lid, coins, sols, condls }
+    Chain { puzzle, inner, ph, iph, lid, lph, coins, sols, condls }
 }
 
 /// replace the `path`-th … helpers to edit solution trees
@@ -238,7 +241,7 @@ fn ff_corruptions(o: &mut Out, r: &mut Rng, p: &Pools, ch: &Chain, k: usize, nc:
     let other: [u8; 32] = sha(&[b"another id", &r.bytes(8)]);
     let _ = p;
     let mut flip = |h: &[u8]| -> Vec<u8> { let mut v = h.to_vec(); let i = r.below(v.len() as u64) as usize; v[i] ^= 1 << r.below(8); v };
-    let mh = SINGLETON_TOP_LAYER_V1_1_HASH; let lph = SINGLETON_LAUNCHER_HASH;
+    let mh = SINGLETON_TOP_LAYER_V1_1_HASH; let lph = ch.lph;
     let pc = |o: &mut Out, puzzle: T, m: &str| ff_case(o, &coin, nc, np, &to_bytes(&puzzle), &solb, m);
     // --- the puzzle reveal
     pc(o, curry_singleton(&nil(), &mh, &ch.lid, &lph, &inner), " @c:mod-nil");
@@ -398,7 +401,7 @@ fn run_ff(o: &mut Out, r: &mut Rng, p: &Pools, thorough: bool) {
         if len >= 2 && r.chance(1, 3) {
             let mod_t = singleton_mod();
             let inner2 = pair(at(&[1]), list(ch.condls[len - 1].clone(), nil()));   // (q . conds)
-            let puzzle2 = curry_singleton(&mod_t, &SINGLETON_TOP_LAYER_V1_1_HASH, &ch.lid, &SINGLETON_LAUNCHER_HASH, &inner2);
+            let puzzle2 = curry_singleton(&mod_t, &SINGLETON_TOP_LAYER_V1_1_HASH, &ch.lid, &ch.lph, &inner2);
             let ph2 = tree_hash_t(&puzzle2);
             let par = ch.coins[len - 2];
             let me = Coin::new(par.coin_id(), b32(ph2), ch.coins[len - 1].amount);
